@@ -1,10 +1,11 @@
 #!/bin/sh
 # developer helper: ./mut.sh Cxx file 's/old/new/' [more sed exprs]  — run a check on a mutated scratch copy of /repo
+# (private scratch worktree per invocation, removed afterwards; /repo itself is never touched)
 prop=$1; file=$2; shift 2
-WT=/tmp/mutwt
-if [ ! -d $WT ]; then git -C /repo worktree add -q --detach $WT HEAD; fi
-git -C $WT checkout -q --detach "$(git -C /repo rev-parse HEAD)" 2>/dev/null; git -C $WT checkout -q -- .
+WT=$(mktemp -d /tmp/mutwt_XXXXXX); rmdir $WT
+git -C /repo worktree add -q --detach $WT HEAD || exit 3
 for e in "$@"; do sed -i "$e" $WT/$file; done
+if git -C $WT diff --quiet; then echo "MUTATION DID NOT CHANGE ANYTHING (sed pattern did not match)"; fi
 git -C $WT diff --stat | tail -1
 VERIF_REPO=$WT ./check $prop 2>&1 | grep -v "^UNDECIDED" | cut -c1-250 | tail -4
-git -C $WT checkout -q -- .
+git -C /repo worktree remove --force $WT
